@@ -41,6 +41,13 @@ BASES = {
     "repeated": cal(["BEGIN:VEVENT", "UID:11", "ATTENDEE:mailto:a@x", "ATTENDEE:mailto:b@x", "ATTENDEE:mailto:c@x", "COMMENT:one", "COMMENT:two", "END:VEVENT"]),
     "typed": cal(["BEGIN:VEVENT", "UID:12", "RRULE:FREQ=WEEKLY;UNTIL=20241231T000000Z;BYDAY=MO,WE", "GEO:37.386013;-122.082932", "PRIORITY:5", "SEQUENCE:3", "DURATION:P1DT2H", "DTSTART;VALUE=DATE:20240601", "END:VEVENT"]),
     "two-events": cal(["BEGIN:VEVENT", "UID:13a", "DTSTART;TZID=Europe/Berlin:20240601T100000", "X-PROP;X-PAR=1:v", "END:VEVENT"], ["BEGIN:VEVENT", "UID:13b", "DTSTART;TZID=Asia/Tokyo:20240601T100000", "END:VEVENT"]),
+    # parameter VALUES are not rewritten (only names are): enumerated parameters with values in lower / mixed case must
+    # come out the same whatever the case of their NAME
+    "enumerated-param-values": cal(["BEGIN:VEVENT", "UID:15", "DTSTART;VALUE=date:20240102",
+                                    "ATTENDEE;PARTSTAT=Accepted;ROLE=req-participant;RSVP=true;CUTYPE=individual:mailto:a@x",
+                                    "RDATE;VALUE=period:20240301T100000Z/PT1H", "ATTACH;FMTTYPE=text/Plain:http://x/y",
+                                    "BEGIN:VALARM", "ACTION:DISPLAY", "TRIGGER;RELATED=end:-PT5M", "END:VALARM", "END:VEVENT"],
+                                   ["BEGIN:VFREEBUSY", "UID:15b", "FREEBUSY;FBTYPE=busy-Tentative:20240301T080000Z/PT1H", "END:VFREEBUSY"]),
     "journal-escapes": cal(["BEGIN:VJOURNAL", "UID:14", "DTSTAMP:20240101T000000Z", "DESCRIPTION:line one\\nline two\\; semi\\, comma", "SUMMARY:plain", "END:VJOURNAL"]),
 }
 CASINGS = ("none", "lower", "title", "alt")
